@@ -28,6 +28,7 @@ type Obligation struct {
 	Ms      int64   `json:"ms"`
 	Model   string  `json:"-"`
 	Cover   bool    `json:"cover,omitempty"` // must be satisfiable (vacuity guard)
+	assertIdx int   // 1 + index of the assertion that restates this obligation for later ones
 	localFrom int   // >0: obligation about a loop body; assumptions made before this assertion index are optional
 	Info    map[string]string `json:"info,omitempty"`
 }
@@ -132,6 +133,7 @@ type VC struct {
 	loopFrames []loopFrame
 	memInfo    map[string]memStore
 	obAsserts  map[int]bool // assertions that restate an earlier obligation
+	foreignOb  map[int]bool // ... of an obligation that the running check does not decide: not assumed
 	seenRef    map[string]bool
 	seenRefs   []string
 	boundNames []string // variables bound by the contract quantifiers being evaluated
@@ -334,6 +336,7 @@ func (vc *VC) oblige(st *State, o *Obligation, formula string) {
 			vc.obAsserts = map[int]bool{}
 		}
 		vc.obAsserts[len(vc.asserts)] = true
+		o.assertIdx = len(vc.asserts) + 1 // (1-based; 0 = not restated)
 		vc.asserts = append(vc.asserts, implies(st.guard, formula))
 	}
 }
